@@ -239,6 +239,8 @@ theorem live_heapGet (a : Addr) : Live (heapGet a) := by unfold heapGet; live
 macro_rules | `(tactic| live_prim) => `(tactic| exact live_heapGet _)
 theorem live_heapSet (a : Addr) (c : Cell) : Live (heapSet a c) := by unfold heapSet; live
 macro_rules | `(tactic| live_prim) => `(tactic| exact live_heapSet _ _)
+theorem live_heapUpd (a : Addr) (c : Cell) : Live (heapUpd a c) := by unfold heapUpd; live
+macro_rules | `(tactic| live_prim) => `(tactic| exact live_heapUpd _ _)
 theorem live_boxSet (a : Addr) (v : V) : Live (boxSet a v) := by unfold boxSet; live
 macro_rules | `(tactic| live_prim) => `(tactic| exact live_boxSet _ _)
 theorem live_curCode : Live curCode := by unfold curCode; live
